@@ -215,7 +215,8 @@ def run(ctx):
     with mp.get_context("fork").Pool(min(16, os.cpu_count() or 1)) as pool:
         lres = pool.map_async(c02_large._job, list(c02_large.cases(ctx.quick)), chunksize=1)
         res = pool.map(_job, jobs, chunksize=1)
-        lres = lres.get()
+        bres = pool.map_async(c02_large.big_block_job, [13, 14, 15] if ctx.quick else [13, 14, 15, 16, 17], chunksize=1)
+        lres = lres.get() + bres.get()
     n = skipped = 0
     routes = {}
     seen = set()
@@ -273,7 +274,10 @@ def replay(data):
     if data.get("kind") == "large":
         from checks import c02_large
 
-        r = c02_large._job((tuple(data["comp"]), data["offset"]))
+        if data["comp"][0] == "bigblock":
+            r = c02_large.big_block_job(data["comp"][1])
+        else:
+            r = c02_large._job((tuple(data["comp"]), data["offset"]))
         return [(sig, msg) for sig, msg, _, _ in r[4]]
     if data.get("kind") == "l1":
         spec = l1.spec_from_json(data["spec"])
